@@ -150,6 +150,8 @@ def make_raw(spec, env, nested=False):
         return spec["v"]
     if t == "bool":
         return bool(spec["v"])
+    if t == "npnum":
+        return numpy.dtype(spec["dtype"]).type(spec["v"])
     if t == "list":
         return [make_raw(x, env, True) for x in spec["items"]]
     if t == "listarg":
@@ -203,6 +205,12 @@ def ref_clean(pspec, raw, env):
     c = pspec["c"]
     if c == "Parameter":
         return raw
+    if isinstance(raw, numpy.generic):
+        # numpy scalars reach clean() through the programming interface: they are numbers (kept as they are, a decimal
+        # stays a decimal); what the other parameter types make of them is not documented
+        if c == "Number" and not isinstance(raw, numpy.bool_):
+            return raw
+        raise Unspecified()
     if c == "String":
         if isinstance(raw, str):
             return raw
@@ -333,9 +341,15 @@ def same(a, b):
                           and bool((numpy.ma.getdata(a) == numpy.ma.getdata(b)).all()))
     if isinstance(a, bool) or isinstance(b, bool):
         return type(a) is type(b) and a == b
+    if isinstance(a, numpy.generic) or isinstance(b, numpy.generic):
+        # a numpy scalar and the Python number of the same kind and value are the same number
+        kind = lambda x: "i" if isinstance(x, (int, numpy.integer)) else "f" if isinstance(x, (float, numpy.floating)) else None
+        return kind(a) is not None and kind(a) == kind(b) and bool(a == b or (a != a and b != b))
     if isinstance(a, (int, float)) and isinstance(b, (int, float)):
         if type(a) is not type(b):
             return False
+        if isinstance(a, float) and a == b:
+            return math.copysign(1.0, a) == math.copysign(1.0, b)  # -0.0 is not 0.0
         return a == b or (a != a and b != b)
     if isinstance(a, (list, tuple)) and isinstance(b, (list, tuple)):
         return len(a) == len(b) and all(same(x, y) for x, y in zip(a, b))
@@ -493,6 +507,10 @@ def Fl(v):
     return {"t": "float", "v": v}
 
 
+def NP(dtype, v):
+    return {"t": "npnum", "dtype": dtype, "v": v}
+
+
 def L(*items):
     return {"t": "list", "items": list(items)}
 
@@ -500,6 +518,7 @@ def L(*items):
 RAW_POOL = [
     I(0), I(1), I(-3), I(12), I(10 ** 30), Fl(1.5), Fl(-0.0), Fl(1e-05), Fl(1e22), Fl(float("nan")), Fl(float("inf")),
     {"t": "bool", "v": 1}, {"t": "bool", "v": 0},
+    NP("float32", 0.5), NP("float32", 1.5), NP("float16", -0.75), NP("float64", 2.5), NP("int64", 3), NP("int32", 0), NP("float32", 2.0),
     S("12"), S("-7"), S("+3"), S("1.5"), S(".5"), S("2."), S("abc"), S(""), S("true"), S("False"), S("TRUE"), S("0"), S("1"),
     S("2"), S(" 7 "), S("1e5"), S("nan"), S("inf"), S("1e999"), S("-Infinity"), S("Float"), S("Integer"), S("Positive Float"), S("Fuzzy"), S("float"),
     S("PData"), S("PFuzzy"), S("PNum"), S("USrc"), S("UNoOut"), S("URead"), S("UFz"), S("UPrint"), S("Missing"), S("café"),
@@ -540,6 +559,8 @@ def matrix_cases(ctx):
         for r in RAW_POOL + [{"t": "array"}]:
             if r["t"] == "array" and p["c"] not in ("Data", "Parameter"):
                 continue
+            if r["t"] == "npnum" and "Number" not in param_kind(p) and p["c"] != "Parameter":
+                continue  # numpy scalars are handed over where numbers are expected; nobody passes one as a path or a data type
             for wd in (True, False, "empty"):
                 if wd == "empty" and not ("Path" in param_kind(p) and (r["t"] in ("path", "str") or r["t"].startswith("list"))):
                     continue  # the working directory only matters for paths
@@ -580,9 +601,68 @@ def generated_cases():
                      st.sampled_from([True, True, False, False, "empty"]))
 
 
-PARTS = {"clean": check_case}
+# ---------------------------------------------------------------------------- values that look alike
+
+LOOKALIKES = [
+    [Fl(0.0), Fl(-0.0), {"t": "bool", "v": 0}, I(0), S("0"), S("0.0"), S("-0.0"), NP("float32", 0.0), NP("int64", 0)],
+    [Fl(1.0), {"t": "bool", "v": 1}, I(1), S("1"), S("1.0"), S("+1"), NP("float32", 1.0), NP("int64", 1)],
+    [I(2), Fl(2.0), S("2"), S("2.0"), S("2."), NP("float16", 2.0)],
+    [S("true"), S("True"), S("TRUE"), {"t": "bool", "v": 1}, I(1), S("1")],
+]
+
+
+def lookalike_cases():
+    specs = [{"c": "Number"}, {"c": "List", "of": {"c": "Number"}}, {"c": "Boolean"}, {"c": "String"}, {"c": "Parameter"},
+             {"c": "List", "of": {"c": "Boolean"}}, {"c": "List", "of": {"c": "String"}}]
+    for p in specs:
+        for group in LOOKALIKES:
+            for r in range(len(group)):
+                yield {"param": p, "seq": group[r:] + group[:r], "as_list": p["c"] == "List"}
+
+
+def check_lookalikes(case, rec):
+    """Values that compare (and hash) equal but differ in kind or sign -- 0, 0.0, -0.0, False, "0" ... -- cleaned one after
+    the other in one process: each gets its own documented result, whatever was cleaned before it."""
+    env = Env(True)
+    try:
+        pspec = case["param"]
+        param = make_param(pspec)
+        fails = []
+        rec.label("lookalikes:" + param_kind(pspec))
+        rec.nontrivial_case(case)
+        for rspec in case["seq"]:
+            if rspec["t"] == "npnum" and "Number" not in param_kind(pspec) and pspec["c"] != "Parameter":
+                continue
+            if case["as_list"]:
+                rspec = L(rspec)
+            raw, pristine = make_raw(rspec, env), make_raw(rspec, env)
+            k1, v1 = do_clean(param, raw, env)
+            sig = "%s|%s|after_lookalikes" % (param_kind(pspec), raw_kind(rspec))
+            if k1 == "raises":
+                return [Failure(sig + "|raises:%s" % type(v1).__name__, repr(v1)[:200])]
+            try:
+                want = ("value", ref_clean(pspec, pristine, env))
+            except Err as e:
+                want = ("error", e.name)
+            except Unspecified:
+                continue
+            if want[0] == "error":
+                if k1 != "error" or type(v1).__name__ != want[1]:
+                    fails.append(Failure(sig + "|expected:%s" % want[1], "got %r after cleaning %r" % (v1, [x.get("v") for x in case["seq"]])))
+            elif k1 != "value" or not same(v1, want[1]):
+                fails.append(Failure(sig + "|wrong_value", "expected %r (%s), got %r (%s) in the sequence %r" % (
+                    want[1], type(want[1]).__name__, v1, type(v1).__name__, [x.get("v") for x in case["seq"]])))
+            if fails:
+                return fails
+        return []
+    finally:
+        env.close()
+
+
+PARTS = {"clean": check_case, "lookalikes": check_lookalikes}
 
 
 def run_shard(ctx, rec):
+    drive_enum(ctx, rec, "lookalikes", lookalike_cases(), check_lookalikes, exhaustive=True, max_novel=8)
     drive_enum(ctx, rec, "clean", matrix_cases(ctx), check_case, exhaustive=True, max_novel=12)
     drive(ctx, rec, "clean", generated_cases(), check_case, ctx.n(2500, 80000))
